@@ -49,7 +49,7 @@ Exposed(e) ==
     [] e.k = "index" -> Primary(e.x) /\ Exposed(e.x) \* the index is enclosed in brackets
     [] e.k = "bin" -> Exposed(e.a) \/ Exposed(e.b)
     [] OTHER -> FALSE                                \* variables, basic literals, literals of non-name types (elements in braces), function literals
-HeaderCtx == {"if-cond", "if-init", "elseif-cond", "for-cond", "for-init", "for-post", "switch-tag", "switch-init", "tswitch-x", "range-x"}
+HeaderCtx == {"if-cond", "if-init", "elseif-cond", "for-cond", "for-init", "for-post", "switch-tag", "switch-init", "tswitch-x", "range-x", "switch-tag-self"}
 PlainCtx == {"case-expr", "assign", "return", "call-stmt"}
 Ambiguous(ctx, e) == ctx \in HeaderCtx /\ Exposed(e)
 
@@ -72,7 +72,7 @@ Finals(c) == CASE c \in {"N", "PN"} -> {<<"bool", "ok">>, <<"bool", "eqL">>, <<"
                                         \cup (IF c = "N" THEN {<<"bool", "callarg">>, <<"int", "callint">>} ELSE {})
                [] c = "Pt" -> {<<"bool", "Eq">>, <<"bool", "XeqL">>, <<"int", "X">>}
                [] c = "A" -> {<<"bool", "ok">>, <<"bool", "eqL">>, <<"bool", "eqR">>, <<"int", "v">>}
-               [] c = "G" -> {<<"bool", "ok">>, <<"bool", "eqL">>, <<"bool", "eqR">>, <<"bool", "not">>, <<"bool", "andR">>, <<"int", "v">>, <<"int", "plus">>}
+               [] c = "G" -> {<<"bool", "ok">>, <<"bool", "eqL">>, <<"bool", "eqR">>, <<"bool", "not">>, <<"bool", "andR">>, <<"int", "v">>, <<"int", "plus">>, <<"self", "self">>}
 ApplyFinal(e, f) ==
   CASE f = "ok" -> Sel(e, "ok")
     [] f = "eqL" -> Bin("==", Sel(e, "v"), IntL(1))
@@ -91,12 +91,14 @@ ApplyFinal(e, f) ==
     [] f = "Eq" -> Call(Sel(e, "Eq"), <<Var("pt")>>)
     [] f = "XeqL" -> Bin("==", Sel(e, "X"), IntL(1))
     [] f = "X" -> Sel(e, "X")
+    [] f = "self" -> e
 Exprs == UNION {UNION {{<<f[1], ApplyFinal(ce[2], f[2])>> : f \in Finals(ce[1])} : ce \in Chains(b[1], b[2], MaxChain)} : b \in Bases}
 \* the kind of expression a context takes
 Wants(ctx) == CASE ctx \in {"if-cond", "elseif-cond", "for-cond", "return", "call-stmt"} -> "bool"
                 [] ctx \in {"if-init", "for-init", "for-post", "switch-tag", "switch-init", "case-expr", "assign"} -> "int"
                 [] ctx = "tswitch-x" -> "any"
                 [] ctx = "range-x" -> "slice"
+                [] ctx = "switch-tag-self" -> "self"        \* the literal itself is the tag: switch (G[int]{v: 1}) { }  (class G only: N is not comparable)
 
 VARIABLE pt
 Init == pt \in UNION {{<<ctx, ke[2]>> : ke \in {x \in Exprs : x[1] = Wants(ctx)}} : ctx \in HeaderCtx \cup PlainCtx}
